@@ -311,5 +311,5 @@ REQUIRED_OUTCOMES = ("runner:setup-ok", "runner:setup-failed", "run_app:setup-ok
 
 
 def bounds(tier):
-    return {"contexts": "3 (quick) / 4 cleanup contexts with independent fail-in-setup / fail-in-teardown flags (all 2^(2n) combinations); 2 contexts + 1 sub-application context; 2 contexts + failing on_startup/on_shutdown/on_cleanup handlers; entry points AppRunner and web._run_app",
+    return {"contexts": "each context in one of three forms (async generator, @asynccontextmanager, class-based); 3 (quick) / 4 cleanup contexts with independent fail-in-setup / fail-in-teardown flags (all 2^(2n) combinations); 2 contexts + 1 sub-application context; 2 contexts + failing on_startup/on_shutdown/on_cleanup handlers; entry points AppRunner and web._run_app",
             "shutdown": "handler duration in {0,2,7,30} s, shutdown_timeout in {1,5} s, on_shutdown hook of 0/1 s, optional late request on the idle connection; virtual time"}
